@@ -249,7 +249,7 @@ def book_oracle_all(rng, n):
             presented = len(ix) if op == "fit" else presented + len(ix)
             bad = None
             for (lab, labels, nW, wsc, sc, chk, minus1, ncl) in views(name, est):
-                why = c05.book_ok([int(v) for v in labels], nW, wsc if wsc is not None else [], sc if sc is not None else presented,
+                why = c05.book_ok(np.asarray(labels), nW, wsc if wsc is not None else [], sc if sc is not None else presented,
                                   presented, check_counters=chk and wsc is not None, allow_minus1=minus1)
                 if why is None and chk and wsc is not None and sc is None and sum(wsc) != presented:
                     why = f"sum(counters)={sum(wsc)} but {presented} presented"
